@@ -1331,4 +1331,281 @@ theorem DInv.run (c : NetCfg) (hc : c.WF) (ls : List NLbl) : DInv ((NS.init c).r
   | nil => intro s h _; exact h
   | cons l ls ih => intro s h hr; exact ih (s.step l) (h.step hr l) (hr.step l)
 
+/-! ### forwarders: which labels touch the forwarder table -/
+
+/-- the labels that leave the forwarder table, the TCP objects and the TCP registry alone -/
+def NLbl.keepsFwds : NLbl → Bool
+  | .uNew .. | .uBind .. | .uSendTo .. | .uRecv .. | .uRecvNb .. | .uWaitRead .. | .uWaitWrite ..
+  | .uSendWaitFired .. | .uCancel .. | .uSetDf .. | .deliver .. => true
+  | _ => false
+
+theorem NS.step_keepsFwds (s : NS) (l : NLbl) (h : l.keepsFwds = true) :
+    (s.step l).n.fwds = s.n.fwds ∧ (s.step l).n.tcps = s.n.tcps ∧ (s.step l).attached = s.attached := by
+  cases l <;> simp only [NLbl.keepsFwds] at h <;> try (exact absurd h (by decide))
+  case uNew name node => simp only [NS.step]; split <;> exact ⟨rfl, rfl, rfl⟩
+  case uBind name ep => exact ⟨(udpBind_ctlStep s.n name ep).fwds, (udpBind_ctlStep s.n name ep).tcps, rfl⟩
+  case uSendTo now name dst payload =>
+    exact ⟨(udpSendTo_ctlStep s.n now name dst payload).fwds, (udpSendTo_ctlStep s.n now name dst payload).tcps, rfl⟩
+  case uRecv name op =>
+    show (s.n.udpAsyncRecv name op).1.fwds = _ ∧ (s.n.udpAsyncRecv name op).1.tcps = _ ∧ _
+    rw [udpAsyncRecv_fst]; exact ⟨by simp, by simp, rfl⟩
+  case uRecvNb name caps =>
+    show (s.n.udpRecvNb name caps).1.fwds = _ ∧ (s.n.udpRecvNb name caps).1.tcps = _ ∧ _
+    rw [udpRecvNb_fst]; exact ⟨by simp, by simp, rfl⟩
+  case uWaitRead name hh =>
+    show (s.n.udpWaitRead name hh).1.fwds = _ ∧ (s.n.udpWaitRead name hh).1.tcps = _ ∧ _
+    rw [udpWaitRead_fst]; exact ⟨by simp, by simp, rfl⟩
+  case uWaitWrite now name hh =>
+    show (s.n.udpWaitWrite now name hh).1.fwds = _ ∧ (s.n.udpWaitWrite now name hh).1.tcps = _ ∧ _
+    rw [udpWaitWrite_fst]; exact ⟨by simp, by simp, rfl⟩
+  case uSendWaitFired name ab =>
+    have := udpSendWaitFired_frame s.n name ab
+    exact ⟨this.1, this.2.2.1, rfl⟩
+  case uCancel name =>
+    show (s.n.udpCancel name).1.fwds = _ ∧ (s.n.udpCancel name).1.tcps = _ ∧ _
+    rw [udpCancel_fst]; exact ⟨by simp, by simp, rfl⟩
+  case uSetDf name df => simp only [NS.step]; split <;> exact ⟨rfl, rfl, rfl⟩
+  case deliver f p =>
+    cases hf : s.n.fwdTarget f with
+    | none => rw [NS.step_deliver_none s f p hf]; exact ⟨rfl, rfl, rfl⟩
+    | some name =>
+      cases hu : s.n.udp? name with
+      | none => rw [NS.step_deliver_tcp s f p name hf hu]; exact ⟨rfl, rfl, rfl⟩
+      | some u =>
+        obtain ⟨e1, _, _, e4⟩ := NS.step_deliver_some s f p name u hf hu
+        rw [e1, e4]; exact ⟨rfl, rfl, rfl⟩
+
+/-- every label is of exactly one of these kinds -/
+theorem NLbl.kinds (l : NLbl) :
+    l.isTcp = true ∨ l.keepsFwds = true ∨ (∃ name v4, l = .uOpen name v4) ∨ (∃ name, l = .uClose name)
+    ∨ (∃ name, l = .uDestroy name) ∨ (∃ src dst, l = .uMove src dst) := by
+  cases l <;> simp [NLbl.isTcp, NLbl.keepsFwds]
+
+/-- the forwarder a live UDP socket holds is allocated and reaches that socket -/
+theorem RInv.udp_fwd_lt {s : NS} (h : RInv s) {f : Nat} {name : String} {u : UdpSock}
+    (hu : s.n.udp? name = some u) (hf : u.fwd = some f) : f < s.n.fwds.length :=
+  fwdTarget_lt _ _ _ (h.udp_fwd hu hf).2
+
+/-- the forwarder a live TCP object holds is allocated and reaches that object -/
+theorem RInv.tcp_fwd {s : NS} (h : RInv s) {f : Nat} {name : String} {t : TcpSock}
+    (ht : s.n.tcp? name = some t) (hf : t.fwd = some f) :
+    s.n.fwdTarget f = some name ∧ f < s.n.fwds.length := by
+  have h1 : s.n.fwdTarget f = some name :=
+    h.fwd.ftc name t.isOpen f (by simp [NetSt.tf, ht, hf])
+  exact ⟨h1, fwdTarget_lt _ _ _ h1⟩
+
+/-- **A detached forwarder stays detached.** Once a forwarder id has been allocated and points
+    nowhere, no label re-attaches it. -/
+theorem detached_step {s : NS} (hr : RInv s) {f : Nat} (hn : s.n.fwdTarget f = none)
+    (hl : f < s.n.fwds.length) (l : NLbl) :
+    (s.step l).n.fwdTarget f = none ∧ f < (s.step l).n.fwds.length := by
+  rcases l.kinds with ht | hk | ⟨name, v4, e⟩ | ⟨name, e⟩ | ⟨name, e⟩ | ⟨src, dst, e⟩
+  · by_cases hm : ∀ a b, l ≠ .tMove a b
+    · have fr := NS.step_tcp_tFrame s l ht hm
+      refine ⟨?_, Nat.lt_of_lt_of_le hl fr.len⟩
+      rcases fr.mono f hl with a | a
+      · rw [a]; exact hn
+      · exact a
+    · have : ∃ a b, l = .tMove a b := by
+        apply Classical.byContradiction; intro hc; apply hm; intro a b e; exact hc ⟨a, b, e⟩
+      obtain ⟨a, b, e⟩ := this
+      subst e
+      simp only [NS.step]
+      split
+      · rename_i hg
+        simp only [Bool.and_eq_true] at hg
+        obtain ⟨t, ht⟩ := Option.isSome_iff_exists.mp hg.2
+        obtain ⟨_, _, e3, e4⟩ := tcpMove_frame s.n a b t ht (fun g hg => (hr.tcp_fwd ht hg).2)
+        refine ⟨?_, by rw [e3]; exact hl⟩
+        show (s.n.tcpMove a b).fwdTarget f = none
+        rw [e4]
+        split
+        · rename_i hf
+          have := (hr.tcp_fwd ht hf).1
+          rw [hn] at this; simp at this
+        · exact hn
+      · exact ⟨hn, hl⟩
+  · have := (NS.step_keepsFwds s l hk).1
+    rw [fwdTarget_congr _ _ this]; rw [this]; exact ⟨hn, hl⟩
+  · subst e
+    show (s.n.udpOpen name v4).1.fwdTarget f = none ∧ f < (s.n.udpOpen name v4).1.fwds.length
+    rw [udpOpen_fwdTarget, udpOpen_fwds_length, udpClose_fwdTarget]
+    have : f ≠ s.n.fwds.length := by omega
+    simp only [this, and_false, if_false]
+    refine ⟨?_, by omega⟩
+    split
+    · rfl
+    · exact hn
+  · subst e
+    show (s.n.udpClose name).1.fwdTarget f = none ∧ f < (s.n.udpClose name).1.fwds.length
+    rw [udpClose_fwdTarget, udpClose_fwds_length]
+    refine ⟨?_, hl⟩
+    split
+    · rfl
+    · exact hn
+  · subst e
+    show (s.n.udpDestroy name).1.fwdTarget f = none ∧ f < (s.n.udpDestroy name).1.fwds.length
+    rw [udpDestroy_fwdTarget, udpDestroy_fwds_length, udpClose_fwdTarget]
+    refine ⟨?_, hl⟩
+    split
+    · rfl
+    · exact hn
+  · subst e
+    simp only [NS.step]
+    split
+    · rename_i hg
+      simp only [Bool.and_eq_true] at hg
+      obtain ⟨u, hu⟩ := Option.isSome_iff_exists.mp hg.2
+      refine ⟨?_, by show f < (s.n.udpMove src dst).fwds.length; rw [udpMove_fwds_length]; exact hl⟩
+      show (s.n.udpMove src dst).fwdTarget f = none
+      rw [udpMove_fwdTarget s.n src dst u hu f (fun g hg => hr.udp_fwd_lt hu hg)]
+      split
+      · rename_i hf
+        have := (hr.udp_fwd hu hf).2
+        rw [hn] at this; simp at this
+      · exact hn
+    · exact ⟨hn, hl⟩
+
+theorem detached_run {s : NS} (hr : RInv s) {f : Nat} (hn : s.n.fwdTarget f = none)
+    (hl : f < s.n.fwds.length) (ls : List NLbl) :
+    (s.run ls).n.fwdTarget f = none ∧ f < (s.run ls).n.fwds.length := by
+  induction ls generalizing s with
+  | nil => exact ⟨hn, hl⟩
+  | cons l ls ih =>
+    have := detached_step hr hn hl l
+    exact ih (hr.step l) this.1 this.2
+
+theorem RInv.run' {s : NS} (hr : RInv s) (ls : List NLbl) : RInv (s.run ls) := by
+  induction ls generalizing s with
+  | nil => exact hr
+  | cons l ls ih => exact ih (hr.step l)
+
+theorem NS.run_append (s : NS) (a b : List NLbl) : s.run (a ++ b) = (s.run a).run b := by
+  simp [NS.run, List.foldl_append]
+
+/-! ### which labels can take a socket's forwarder away -/
+
+/-- close / destroy / re-open of `name`, or move construction from `name` -/
+def NLbl.detaches (l : NLbl) (name : String) : Bool :=
+  match l with
+  | .uClose x | .uDestroy x | .uOpen x _ => x == name
+  | .uMove src _ => src == name
+  | _ => false
+
+/-- the socket object is still there, open as before, with the same forwarder -/
+def NetSt.keeps (_n n' : NetSt) (name : String) (u : UdpSock) : Prop :=
+  ∃ u', n'.udp? name = some u' ∧ u'.fwd = u.fwd ∧ u'.isOpen = u.isOpen ∧ u'.node = u.node
+
+theorem NetSt.keeps.of_udp? {n n' : NetSt} {name : String} {u : UdpSock} (hu : n.udp? name = some u)
+    (h : n'.udp? name = n.udp? name) : n.keeps n' name u := ⟨u, by rw [h, hu], rfl, rfl, rfl⟩
+
+theorem NetSt.keeps.of_udpSame {n n' : NetSt} {name : String} {u : UdpSock} (hu : n.udp? name = some u)
+    (h : n.udpSame n') : n.keeps n' name u := by
+  rcases h name with ⟨a, _⟩ | ⟨v, v', a, b, c⟩
+  · rw [hu] at a; simp at a
+  · rw [hu] at a; simp at a; subst a
+    exact ⟨v', b, c.2.2.2.2.2.2.1, c.2.2.1, c.2.2.2.2.2.2.2.1⟩
+
+theorem NetSt.keeps.of_mapUdp {n : NetSt} {name x : String} {u : UdpSock} (hu : n.udp? name = some u)
+    (g : UdpSock → UdpSock) (hg : ∀ v : UdpSock, v.sameCtl (g v)) : n.keeps (n.mapUdp x g) name u := by
+  by_cases hx : name = x
+  · subst hx
+    exact ⟨g u, by rw [udp?_mapUdp]; simp [hu], (hg u).2.1, (hg u).1, (hg u).2.2.2.1⟩
+  · exact NetSt.keeps.of_udp? hu (by rw [udp?_mapUdp]; simp [hx])
+
+theorem NS.step_keeps (s : NS) (l : NLbl) (name : String) (u : UdpSock) (hu : s.n.udp? name = some u)
+    (hl : l.detaches name = false) : s.n.keeps (s.step l).n name u := by
+  rcases l.kinds with ht | hk | ⟨x, v4, e⟩ | ⟨x, e⟩ | ⟨x, e⟩ | ⟨src, dst, e⟩
+  · exact NetSt.keeps.of_udp? hu (NS.step_tcp_udp? s l ht name)
+  · cases l <;> simp only [NLbl.keepsFwds] at hk <;> try (exact absurd hk (by decide))
+    case uNew x node =>
+      simp only [NS.step]
+      split
+      · rename_i hfr
+        have hn : s.n.udp? x = none := by
+          simp only [NetSt.fresh, Bool.and_eq_true, Option.isNone_iff_eq_none] at hfr; exact hfr.1
+        have hx : name ≠ x := by intro e; rw [e, hn] at hu; simp at hu
+        exact NetSt.keeps.of_udp? hu (by show (s.n.setUdp x _).udp? name = _; simp [hx])
+      · exact NetSt.keeps.of_udp? hu rfl
+    case uBind x ep => exact NetSt.keeps.of_udpSame hu (udpBind_ctlStep s.n x ep).same
+    case uSendTo now x dst payload => exact NetSt.keeps.of_udpSame hu (udpSendTo_ctlStep s.n now x dst payload).same
+    case uRecv x op =>
+      show s.n.keeps (s.n.udpAsyncRecv x op).1 name u
+      rw [udpAsyncRecv_fst]
+      exact NetSt.keeps.of_mapUdp hu _ (fun v => (UdpSock.sameCtl_abortRecv v).trans (UdpSock.sameCtl_asyncReceive _ op))
+    case uRecvNb x caps =>
+      show s.n.keeps (s.n.udpRecvNb x caps).1 name u
+      rw [udpRecvNb_fst]
+      exact NetSt.keeps.of_mapUdp hu _ (fun v => (UdpSock.sameCtl_abortRecv v).trans (UdpSock.sameCtl_receiveFrom _ caps))
+    case uWaitRead x hh =>
+      show s.n.keeps (s.n.udpWaitRead x hh).1 name u
+      rw [udpWaitRead_fst]
+      exact NetSt.keeps.of_mapUdp hu _ (fun v => (UdpSock.sameCtl_abortRecv v).trans (UdpSock.sameCtl_asyncWaitReceive _ hh))
+    case uWaitWrite now x hh =>
+      show s.n.keeps (s.n.udpWaitWrite now x hh).1 name u
+      rw [udpWaitWrite_fst]
+      exact NetSt.keeps.of_mapUdp hu _ (fun v => by split <;> exact ⟨rfl, rfl, rfl, rfl, rfl⟩)
+    case uSendWaitFired x ab =>
+      show s.n.keeps (s.n.udpSendWaitFired x ab).1 name u
+      by_cases hx : name = x
+      · subst hx
+        refine ⟨(if ab = true then u else { u with waitSendH := none }), by rw [udpSendWaitFired_udp?]; simp [hu], ?_⟩
+        split <;> exact ⟨rfl, rfl, rfl⟩
+      · exact NetSt.keeps.of_udp? hu (by rw [udpSendWaitFired_udp?]; simp [hx])
+    case uCancel x =>
+      show s.n.keeps (s.n.udpCancel x).1 name u
+      rw [udpCancel_fst]
+      exact NetSt.keeps.of_mapUdp hu _ (fun v => UdpSock.sameCtl_cancel x v)
+    case uSetDf x df =>
+      simp only [NS.step]
+      split
+      · rename_i v hv
+        exact NetSt.keeps.of_udpSame hu (NetSt.udpSame.setUdp hv ⟨rfl, rfl, rfl, rfl, rfl, rfl, rfl, rfl, fun _ => rfl⟩)
+      · exact NetSt.keeps.of_udp? hu rfl
+    case deliver f p =>
+      cases hf : s.n.fwdTarget f with
+      | none => rw [NS.step_deliver_none s f p hf]; exact NetSt.keeps.of_udp? hu rfl
+      | some x =>
+        cases hv : s.n.udp? x with
+        | none => rw [NS.step_deliver_tcp s f p x hf hv]; exact NetSt.keeps.of_udp? hu rfl
+        | some v =>
+          rw [(NS.step_deliver_some s f p x v hf hv).1]
+          by_cases hx : name = x
+          · subst hx
+            rw [hu] at hv; simp at hv; subst hv
+            have := UdpSock.sameCtl_incoming u p
+            exact ⟨(u.incoming p).1, by simp, this.2.1, this.1, this.2.2.2.1⟩
+          · exact NetSt.keeps.of_udp? hu (by simp [hx])
+  · subst e
+    have hx : name ≠ x := by intro e; simp [NLbl.detaches, e] at hl
+    exact NetSt.keeps.of_udp? hu (by show (s.n.udpOpen x v4).1.udp? name = _; rw [udpOpen_udp?]; simp [hx])
+  · subst e
+    have hx : name ≠ x := by intro e; simp [NLbl.detaches, e] at hl
+    exact NetSt.keeps.of_udp? hu (by show (s.n.udpClose x).1.udp? name = _; rw [udpClose_udp?]; simp [hx])
+  · subst e
+    have hx : name ≠ x := by intro e; simp [NLbl.detaches, e] at hl
+    exact NetSt.keeps.of_udp? hu (by show (s.n.udpDestroy x).1.udp? name = _; rw [udpDestroy_udp?]; simp [hx])
+  · subst e
+    have hx : name ≠ src := by intro e; simp [NLbl.detaches, e] at hl
+    simp only [NS.step]
+    split
+    · rename_i hg
+      simp only [Bool.and_eq_true] at hg
+      obtain ⟨v, hv⟩ := Option.isSome_iff_exists.mp hg.2
+      have hdn : s.n.udp? dst = none := by
+        have := hg.1
+        simp only [NetSt.fresh, Bool.and_eq_true, Option.isNone_iff_eq_none] at this; exact this.1
+      have hx2 : name ≠ dst := by intro e; rw [e, hdn] at hu; simp at hu
+      exact NetSt.keeps.of_udp? hu (by show (s.n.udpMove src dst).udp? name = _; rw [udpMove_udp? s.n src dst name v hv]; simp [hx, hx2])
+    · exact NetSt.keeps.of_udp? hu rfl
+
+/-- **A forwarder keeps reaching its socket** under every label that does not close, destroy,
+    re-open or move that very socket. -/
+theorem fwd_kept_step {s : NS} (hr : RInv s) {f : Nat} {name : String} {u : UdpSock}
+    (hu : s.n.udp? name = some u) (hf : s.n.fwdTarget f = some name) (l : NLbl)
+    (hl : l.detaches name = false) : (s.step l).n.fwdTarget f = some name := by
+  obtain ⟨u', h1, h2, _, _⟩ := NS.step_keeps s l name u hu hl
+  have := (hr.deliver_open hf hu).2
+  exact ((hr.step l).udp_fwd h1 (by rw [h2, this])).2
+
 end SimVerif
